@@ -10,6 +10,7 @@ pub mod ll;
 pub mod llrun;
 pub mod lrrun;
 pub mod scan;
+pub mod tables;
 pub mod wf;
 pub mod xform;
 
@@ -21,6 +22,7 @@ pub fn replay_fn(kind: &str) -> Result<fn(&Value) -> Outcome> {
         "llrun" => llrun::replay,
         "c07" => c07::replay,
         "c31" => c31::replay,
+        "tables" => tables::replay,
         "canon" => canon::replay,
         "scan" => scan::replay,
         "c32" => c32::replay,
